@@ -87,6 +87,14 @@ CHECKS.append({
     "technique": "Coq proof (induction over file bytes / file lists) + model/implementation correspondence + metamorphic trivia and line-shift runs on the implementation",
 })
 
+CHECKS.append({
+    "property_id": "C07",
+    "text": "The places where the workspace walks a HashMap/HashSet in its internal order are regenerated from the sources on every run (tools/inventory.py; every `for` loop cross-checked against clippy::iter_over_hash_type, i.e. the compiler's own types) and must equal the reviewed list, in which each walk is neutralised by a Coq theorem or by review: collected-then-sorted walks (inline constant buffers, required globals, helper objects and helpers, the names of one scope) by `Permutation l l' -> isort l = isort l'` for a total order under which equal elements are identical (and sort_by on distinct keys); the walk over name scopes by a theorem on the name-generator model (any order of the scopes gives every local variable the same name and the global symbols the same (symbol, name) pairs); the usage fixpoint by a theorem that, whatever the order of the keys, it ends with exactly the symbols reachable through the initial usage sets; the remaining walks are set insertions, min/max reductions, assertions, or produce a list no exporter reads. Runtime search: programs built to put several elements into every affected container (clashing names across four namespaces, seven buffer-address globals in five bind groups, a call graph using ~15 globals and wave intrinsics, helper functions of nine object kinds, enums, templates, rejected programs) and every repository shader source are compiled 8 times in one process and in 2 fresh processes per target and pipeline mode and compared byte for byte (sources, metadata, stages, pipeline state, diagnostics).",
+    "design_ref": "DESIGN.md §4 C07",
+    "note": "Partial: there is no theorem about compile() as a whole; the claim is per hash-walk site plus the inventory tie. Trusted: Coq kernel, tools/inventory.py (name-based typing of walked expressions; clippy covers `for` loops precisely), the review verdicts for the sites without a theorem, extraction is not used. A removed sort changes the site's regenerated classification and breaks C07_inventory; the runtime comparison then looks for a differing pair of runs.",
+    "technique": "Coq proof (permutation invariance of sort / name scopes / usage fixpoint) + regenerated hash-walk inventory + repeated-compilation comparison",
+})
+
 _claimed = {c["property_id"] for c in CHECKS}
 NOT_APPLICABLE = [
     {"property_id": p, "reason": "not yet claimed: model/theorems under construction (see DESIGN.md build order); no check registered until it passes on the unchanged tree"}
